@@ -76,6 +76,13 @@ Theorem C12_src_block : forall b, wf BLOCK b = true ->
      4 * (N.of_nat (length (enc (c_header maxvec cap_vecu8) (b_header b))) + vi_size (N.of_nat (length (b_txs b)))) + nsum (map SrcSizes.src_Transaction_weight (b_txs b)).
 Proof. intros b W. rewrite SrcSizes.src_block_size, SrcSizes.src_block_weight. split; [now apply C12_block_size|].
   rewrite C12_block_weight. f_equal. apply SrcSizes.nsum_map_ext. intros x. symmetry. apply SrcSizes.src_weight. Qed.
+(* the accessors never panic: the no-panic conditions the translator generates from their bodies (division by the constant 4; no index, no
+   subtraction outside discount_weight, whose subtractions are C12_discount) are true for every transaction and block *)
+Theorem C12_src_no_panic : forall t k b,
+  SrcSizes.src_Transaction_scaled_size_safe t k = true /\ SrcSizes.src_Transaction_size_safe t = true /\ SrcSizes.src_Transaction_weight_safe t = true
+  /\ SrcSizes.src_Transaction_vsize_safe t = true /\ SrcSizes.src_Block_size_safe maxvec cap_vecu8 b = true /\ SrcSizes.src_Block_weight_safe maxvec cap_vecu8 b = true.
+Proof. intros t k b. repeat split; auto using SrcSizes.src_scaled_size_safe, SrcSizes.src_size_safe, SrcSizes.src_weight_safe, SrcSizes.src_vsize_safe,
+  SrcSizes.src_block_size_safe, SrcSizes.src_block_weight_safe. Qed.
 End C12.
 
 Check (C12_size : forall pt_ok maxvec cap_txin cap_txout cap_vecu8 t, wf (c_tx pt_ok maxvec cap_txin cap_txout cap_vecu8) t = true ->
